@@ -168,11 +168,39 @@ func matchFinding(fs []Finding, prop, name string) *Finding {
 	return nil
 }
 
+// propDeps: a property's check also discharges the obligations of the properties it is built on
+// (one level): e.g. unmarshalling (C05) is lexing strings (C20), scoping (C02), building blocks (C03),
+// selecting them (C04) and binding (C15); the file format (C14) is what Dump/Load write and read (C09).
+var propDeps = map[string][]string{
+	"C03": {"C02", "C04"},
+	"C05": {"C01", "C02", "C03", "C04", "C15", "C20"},
+	"C07": {"C08", "C11", "C20"},
+	"C08": {"C07"},
+	"C09": {"C13", "C14"},
+	"C11": {"C07"},
+	"C12": {"C16"},
+	"C13": {"C09"},
+	"C14": {"C09"},
+	"C15": {"C05"},
+	"C16": {"C12"},
+	"C17": {"C20", "C01", "C02"},
+	"C19": {"C08"},
+	"C20": {"C07", "C17"},
+}
+
 func hasProp(props []string, p string) bool {
 	if p == "" || p == "all" {
 		return true
 	}
-	return contains(props, p)
+	if contains(props, p) {
+		return true
+	}
+	for _, q := range propDeps[p] {
+		if contains(props, q) {
+			return true
+		}
+	}
+	return false
 }
 
 type Checker struct {
